@@ -5,6 +5,7 @@ mod util;
 mod dsu;
 mod reader;
 mod writer;
+mod segtree;
 
 use util::arg_value;
 
@@ -25,6 +26,8 @@ fn main() {
         ("dsu", "record") => dsu::record(seed, &tier, &out),
         ("reader", "replay") => reader::replay(&args[3], &out),
         ("reader", "record") => reader::record(seed, &tier, &out),
+        ("segtree", "replay") => segtree::replay(&args[3], &out, &arg_value(&args, "--focus").unwrap_or_else(|| "all".into())),
+        ("segtree", "record") => segtree::record(seed, &tier, &out),
         ("writer", "replay") => writer::replay(&args[3], &out),
         ("writer", "record") => writer::record(seed, &tier, &out),
         _ => {
